@@ -58,6 +58,9 @@ func initEnv() {
 			if r == nil {
 				return nil, fmt.Errorf("sim: no run registered for %q", addr)
 			}
+			if strings.HasSuffix(addr, "-bystander") {
+				return r.dialBystander(ctx)
+			}
 			return r.dial(ctx)
 		})
 	})
@@ -104,7 +107,7 @@ func snapRows(rows []*gobinlog.RowData) [][]SnapCol {
 				row = append(row, SnapCol{Name: "<nil column>"})
 				continue
 			}
-			sc := SnapCol{Name: c.Filed, Type: byte(c.Type), IsEmpty: c.IsEmpty, Nil: c.Data == nil}
+			sc := SnapCol{Name: strings.Clone(c.Filed), Type: byte(c.Type), IsEmpty: c.IsEmpty, Nil: c.Data == nil}
 			if c.Data != nil {
 				sc.Data = append([]byte{}, c.Data...)
 			}
@@ -117,8 +120,8 @@ func snapRows(rows []*gobinlog.RowData) [][]SnapCol {
 
 func snapshotTx(t *gobinlog.Transaction) *SnapTx {
 	s := &SnapTx{
-		Now:       Pos{t.NowPosition.Filename, t.NowPosition.Offset},
-		Next:      Pos{t.NextPosition.Filename, t.NextPosition.Offset},
+		Now:       Pos{strings.Clone(t.NowPosition.Filename), t.NowPosition.Offset},
+		Next:      Pos{strings.Clone(t.NextPosition.Filename), t.NextPosition.Offset},
 		Timestamp: t.Timestamp,
 		NilEvents: t.Events == nil,
 	}
@@ -127,8 +130,10 @@ func snapshotTx(t *gobinlog.Transaction) *SnapTx {
 			s.Events = append(s.Events, SnapEvent{Type: -1})
 			continue
 		}
-		se := SnapEvent{Type: int(e.Type), DB: e.Table.DbName, Table: e.Table.TableName,
-			QDB: e.Query.Database, SQL: e.Query.SQL, Timestamp: e.Timestamp}
+		// strings are copied byte for byte: a string that aliases a library buffer must
+		// not change together with its snapshot
+		se := SnapEvent{Type: int(e.Type), DB: strings.Clone(e.Table.DbName), Table: strings.Clone(e.Table.TableName),
+			QDB: strings.Clone(e.Query.Database), SQL: strings.Clone(e.Query.SQL), Timestamp: e.Timestamp}
 		if e.Query.Charset != nil {
 			se.Charset = &[3]int32{e.Query.Charset.Client, e.Query.Charset.Conn, e.Query.Charset.Server}
 		}
